@@ -23,6 +23,7 @@ def run(tier, seed):
                                          {"kind": "cfgdrv", "problem": {k: p[k] for k in ("cats", "line", "event", "context")}, "input": p["replay_input"]}))
         else:
             notes.append("config replay: first mismatch of a behaviour concerns %s" % p["cats"])
+    walk = eventfam.fire_walk_mc()
     st = eventfam.storm(300 if tier == "quick" else 3000)
     for p in st["problems"][:3]:
         viol.append(vlib.save_replay("C19", "storm-%s-seed%d.json" % (vlib.digest(p["event"]), seed), {"kind": "eventdrv-storm", "problem": p}))
@@ -40,8 +41,8 @@ def run(tier, seed):
                    "(EventBus) and checks UnsubNeverPanics / ShutDownNotNotified / OthersKeepNotifications / FollowersHaveLatest; the two deviations of the "
                    "pinned tree are kept as negative controls that must violate them; generated schedules are replayed on the real utils/event.Event and "
                    "config.ConfigProp with gated listeners (the schedule decides the completion order) and on live components (cache limit, memory cap, "
-                   "janitor interval, log level) through the API update path; TLC judges the recorded observations (EventBusTrace, ConfigCellsTrace). Free-running rounds (40 fires concurrent with the unsubscription of every second of 24 listeners) are judged at quiescence by EventStormTrace (listeners that stayed subscribed have the last value, no value fired after an Unsubscribe returned reaches its listener, no panic). Back-to-back changes while a component is busy: spec/JanitorCtl.tla models the listener -> one-slot mailbox -> janitor hand-over (LatestGoverns, Settles; drop-when-full as negative control); every visible schedule of changes and hold/release of the janitor up to length 5/6 runs on the real cache and TLC judges the interval the janitor ends up on (JanitorCtlTrace).",
-           "negative_controls": neg, "step_kinds": kinds, "storm_rounds": st["rounds"], "janitor_interval_protocol": jp["coverage"].get("janitor_interval_protocol"), "config_replay": {k: c[k] for k in ("behaviours", "lines", "kinds")}, "notes": notes[:10]}
+                   "janitor interval, log level) through the API update path; TLC judges the recorded observations (EventBusTrace, ConfigCellsTrace). spec/EventFire.tla models Fire's unlocked walk over the listener array against concurrent unsubscribes (every listener that stays subscribed is reached exactly once; cutting the entry out in place is the negative control). Free-running rounds (40 fires concurrent with the unsubscription of every second of 24 listeners) are judged at quiescence by EventStormTrace (listeners that stayed subscribed have the last value, no value fired after an Unsubscribe returned reaches its listener, no panic). Back-to-back changes while a component is busy: spec/JanitorCtl.tla models the listener -> one-slot mailbox -> janitor hand-over (LatestGoverns, Settles; drop-when-full as negative control); every visible schedule of changes and hold/release of the janitor up to length 5/6 runs on the real cache and TLC judges the interval the janitor ends up on (JanitorCtlTrace).",
+           "negative_controls": neg, "step_kinds": kinds, "storm_rounds": st["rounds"], "fire_walk_model": walk, "janitor_interval_protocol": jp["coverage"].get("janitor_interval_protocol"), "config_replay": {k: c[k] for k in ("behaviours", "lines", "kinds")}, "notes": notes[:10]}
     vlib.write_evidence("C19", tier, "model_checking", cov, time.time() - t0, len(viol),
                         ["cache-policy and retry switches are read live on every request (covered by the proxy replays under C03/C04/C07)"])
     return viol
